@@ -89,6 +89,25 @@ def run(ctx):
                       describe=lambda c: (repr(c[1])[:200], c[2]),
                       bucket=lambda c, r: r.split(" ")[0])
 
+    def judge_literals():
+        found = []
+        # second consequence: a LITERAL of a kind outside the allowed set is rejected
+        kinds = {"Integer": ast.Integer("5"), "Float": ast.Float("2.5"), "String": ast.String("ab"), "Boolean": ast.Boolean("true"), "Date": ast.Date("2020-01-01"),
+                 "DateTime": ast.DateTime("2020-01-01T10:00:00Z"), "List": ast.List([ast.Integer("1")]), "Time": ast.Time("12:00:00"), "GUID": ast.GUID("01234567-89ab-cdef-0123-456789abcdef")}
+        for kname, lit in kinds.items():
+            for al in ALLOWED_SETS:
+                got = real_typecheck(lit, al)
+                if kname in al and got != "ok unit":
+                    found.append({"property": "C18", "input": repr(lit), "allowed": al, "why": "typecheck rejects a literal of an allowed kind", "signature": "C18:typecheck-literal:" + kname})
+                if kname not in al and not got.startswith("lib ArgumentTypeException"):
+                    found.append({"property": "C18", "input": repr(lit), "allowed": al, "real": got, "why": "typecheck does not reject a literal of a kind outside the allowed set",
+                                  "signature": "C18:typecheck-literal-accepted:" + kname, "replay": "odata_query.typing.typecheck(<literal>, <allowed classes>, 'field')"})
+        return found
+    literal_findings = judge_literals()
+    ctx.evaluations += 9 * len(ALLOWED_SETS)
+    if literal_findings:
+        ctx.broken.append(f"typecheck on literals violates C18 in {len(literal_findings)} cases; first: {literal_findings[0]['input']} allowed={literal_findings[0]['allowed']}: {literal_findings[0]['why']}")
+
     def search(ctx):
         cand = [(c[0], c[1]) for (n, c, r, m) in ctx.diffs] + uniq
         seen, cands = set(), []
@@ -112,7 +131,8 @@ def run(ctx):
                     if sp in al and real_typecheck(nd, al) != "ok unit":
                         found.append({"property": "C18", "input": repr(nd), "wire": w, "allowed": al, "actual_type": sp,
                                       "why": "typecheck rejects a well-typed argument", "signature": "C18:typecheck:" + sp})
-        ctx.extra["searched"] = f"{len(cands)} typed terms judged by Spec.typeOf (Lean)"
+        found += literal_findings
+        ctx.extra["searched"] = f"{len(cands)} typed terms judged by Spec.typeOf (Lean); 9 literal kinds x {len(ALLOWED_SETS)} allowed sets"
         return found
 
     return common.finish(
